@@ -246,28 +246,15 @@ func c29PairsEq(a, b []c29Pair) bool {
 	return true
 }
 
-func c29IsLeak(got, leak []c29Pair) bool {
-	if len(got) == 0 || len(leak) == 0 || got[0] != leak[0] {
-		return false
-	}
-	in := map[c29Pair]bool{}
-	for _, p := range leak {
-		in[p] = true
-	}
-	for _, p := range got {
-		if !in[p] {
-			return false
-		}
-	}
-	return true
-}
-
-// c29KnownSig: an iterator over an illegal (unprefixed / mixed-prefix) range is not empty when
+// c29KnownSig: an iterator over an illegal (unprefixed / mixed-prefix) range was not empty when
 // the subject store is cachekv-backed (as every sdk.Context store is) and holds a key whose
-// first byte is 0x00.
+// first byte is 0x00: the "closed" iterator was subjectStore.Iterator({0},{1}) after Close(), and a
+// cachekv iterator stays Valid() after Close(). Found by this check on the original tree and fixed
+// in /repo (fix: commit); the generator has no tolerance for it, and c29Known keeps the minimal
+// reproduction as a plain regression case.
 const c29KnownSig = "closed-iterator-still-valid-on-cachekv-leaks-subject-keys-in-00-01"
 
-// c29Known is the deterministic re-demonstration of the known finding (part of every case so that it reproduces on re-execution).
+// c29Known is the deterministic minimal reproduction of that finding (part of every case so that a failure reproduces on re-execution).
 func c29Known(t rapid.TB, rec *vx.Case) {
 	base := cachekv.NewStore(dbadapter.Store{DB: dbm.NewMemDB()})
 	subj := prefix.NewStore(base, []byte(c29SubjPfx))
@@ -449,19 +436,6 @@ func runC29(t rapid.TB, c c29Case, rec *vx.Case) {
 				mixedRanges++
 			}
 			same := c29PairsEq(got, want)
-			if !same && !consistent {
-				// Known finding (see c29KnownSig): the "closed" iterator handed out for an illegal range is
-				// subjectStore.Iterator({0},{1}) after Close(); a cachekv-backed store stays Valid() after
-				// Close(), so exactly the subject entries in [0x00,0x01) leak. That precise outcome is
-				// counted and excluded here; the deterministic sub-case c29Known re-demonstrates it.
-				// (what a closed iterator yields after its first element is unspecified: accept any
-				// non-empty run of elements of that leak set starting with its first element)
-				if leak := c29Range(model[0], []byte{0}, []byte{1}, false); c29IsLeak(got, leak) {
-					rec.Add("excluded_known", 1)
-					rec.Class("known-closed-iterator-leak-observed")
-					same = true
-				}
-			}
 			if !same {
 				sig := "iterator-routing"
 				if !consistent {
